@@ -46,7 +46,7 @@ def op_result_shapes(op, shapes):
     if op == "flat":
         return [(int(np.prod(s)),)] if len(s) != 1 else None
     if op == "idx0":
-        return [s[1:]] if len(s) >= 1 else None
+        return [s[1:]] if len(s) >= 1 and s[0] >= 1 else None
     if op == "tr":  # transpose of a 2-d value: a dense NON-contiguous view
         return [(s[1], s[0])] if len(s) == 2 else None
     if op == "unbind":
